@@ -185,7 +185,7 @@ pub fn start_reference_server() {
             };
             let g = unsafe { libc::fork() };
             if g == 0 {
-                let out: Result<String, String> = match serde_json::from_slice::<RefRequest>(&frame) {
+                let out: Result<String, String> = match crate::common::json_from_slice::<RefRequest>(&frame) {
                     Ok(r) => crate::common::lib_call(&r.text, &r.doc, &r.offset, r.now, &r.targets, r.mode, r.json),
                     Err(e) => Err(format!("bad request: {}", e)),
                 };
